@@ -16,13 +16,13 @@ def run(ctx):
     mworld.run_family(
         ctx, "C37", scenarios=[3, 10], impls=['basicmutable', 'overlay-basic', 'overlay-mutable', 'overlay-empty'],
         sections=['result-overaccept', 'validity'], finish=False,
-        focused=(150, 800))
+        focused=(150, 800), frames=("", "antimeridian"))
     # build half: every source of StaticWorld scenario 1 (valid and invalid features of every class) built as a basic
     # world and as a compact world; what the build keeps must pass the independent validity check and equal
     # StaticWorld!ValidSubset (a kept invalid feature shows up as a lookup/validity mismatch)
     return sworld.run_static(
         ctx, "C37", 1,
-        variants=[{"impl": "basic", "cores": 1}, {"impl": "basic", "cores": 4}, {"impl": "compact", "cores": 2, "all_sources": True, "max": (40, 400)}],
+        variants=[{"impl": "basic", "cores": 1}, {"impl": "basic", "cores": 4}, {"impl": "basic", "cores": 1, "frame": "antimeridian"}, {"impl": "compact", "cores": 2, "all_sources": True, "max": (40, 400)}],
         sections=["validity", "problems", "build", "observe"],
         rule='every transition of MutableWorld scenario 3 executed via its shortest prefix on 4 world constructions + random '
              'walks; every source of StaticWorld scenario 1 built as basic (1, 4 goroutines) and compact worlds; after every '
